@@ -633,6 +633,12 @@ def run_real(case, tmpdir, tag='w', blobs=False):
     if case.get('family') == 'blobs':
         import c12_blobs
         return c12_blobs.run_real(case, tmpdir, tag)
+    if case.get('family') == 'readcur':
+        import c12_readcur
+        return c12_readcur.run_real(case, tmpdir, tag)
+    if case.get('family') == 'misc':
+        import c11_misc
+        return c11_misc.run_real(case, tmpdir, tag)
     w = World(case, tmpdir, tag, blobs)
     try:
         out = ['ok | ' + w.vector()]          # observation of the `reset` line
@@ -1019,6 +1025,12 @@ def judge(case, real, pid):
     if case.get('family') == 'blobs':
         import c12_blobs
         return c12_blobs.judge(case, real)
+    if case.get('family') == 'readcur':
+        import c12_readcur
+        return c12_readcur.judge(case, real)
+    if case.get('family') == 'misc':
+        import c11_misc
+        return c11_misc.judge(case, real)
     o = Oracle(case['n'], pid)
     try:
         o.lastkind = None
@@ -1040,7 +1052,10 @@ def judge(case, real, pid):
         o.lastkind = res.split()[0][5:] if res.startswith('fail:') else None
         try:
             if len(parts) == 3:
-                o.check_vector(parts[1], op, after_failed_commit=True)
+                if not op.startswith('spf'):
+                    # (a failed savepoint does not complete the transaction: the connection's view is refreshed
+                    # only by the abort that follows, so only the second observation is at a boundary)
+                    o.check_vector(parts[1], op, after_failed_commit=True)
                 o.check_vector(parts[2], op, after_failed_commit=True)
             else:
                 o.check_vector(parts[1], op)
@@ -1412,14 +1427,35 @@ def real_of(case, tmpdir, blobs=False):
         shutil.rmtree(os.path.join(tmpdir, 'fs-' + tag), ignore_errors=True)
 
 
+CASE_TIMEOUT = 120
+
+
+class CaseTimeout(BaseException):
+    pass
+
+
 def _work(args):
+    """one case on the real code, with a time limit: a step that blocks becomes a verdict with its input"""
+    import signal
     case, tmpdir, pid = args
+
+    def onalarm(*a):
+        raise CaseTimeout()
+    old = signal.signal(signal.SIGALRM, onalarm)
+    signal.alarm(CASE_TIMEOUT)
     try:
         real = real_of(case, tmpdir)
         return real, judge(case, real, pid), nontrivial(case, real, pid), None
+    except CaseTimeout:
+        n = len(case['ops'])
+        return (['timeout'] * (n + 1), (n, '%s:timeout' % pid, 'the program did not finish within %d s'
+                                        % CASE_TIMEOUT), False, None)
     except Exception as e:      # harness trouble, not a verdict
         import traceback
         return None, None, False, traceback.format_exc()
+    finally:
+        signal.alarm(0)
+        signal.signal(signal.SIGALRM, old)
 
 
 def run_check(pid, argv=None):
@@ -1455,6 +1491,9 @@ def run_check(pid, argv=None):
             cases.append(c11_multidb.gen(ck.rng, kinds[m % 3]))
         for m in range(45 if not ck.thorough else 1000):
             cases.append(c11_multidb.gen_x(ck.rng, kinds[m % 3]))
+        import c11_misc
+        for m in range(40 if not ck.thorough else 600):
+            cases.append(c11_misc.gen(ck.rng, kinds[m % 3]))
         # savepoint programs (the outcome of abort / commit / failed commit after savepoints and rollbacks is
         # C11's subject too): C12's scenarios and random programs, judged by the oracle in C12 mode
         for m in range(60 if not ck.thorough else 1500):
@@ -1463,6 +1502,9 @@ def run_check(pid, argv=None):
             c['as'] = 'C12'
             cases.append(c)
     if pid == 'C12' and not ck.replay_path:
+        import c12_readcur
+        for m in range(45 if not ck.thorough else 1500):
+            cases.append(c12_readcur.gen(ck.rng, kinds[m % 3]))
         import c12_blobs
         for m in range(60 if not ck.thorough else 2000):
             cases.append((c12_blobs.gen_scenario if m % 3 == 2 else c12_blobs.gen)(ck.rng, kinds[m % 3]))
@@ -1519,6 +1561,9 @@ def run_check(pid, argv=None):
         if verdict is not None and verdict[0] == 'taint':
             ck.count('tainted-by-C11-finding')
             cut = verdict[1]
+        elif verdict is not None and verdict[1].endswith(':timeout'):
+            ck.violation(verdict[1], verdict[2], dict(case, real=real[:1], at=verdict[0]))
+            cut = 0
         elif verdict is not None:
             idx, sig, what = verdict
             cut = idx
